@@ -65,19 +65,22 @@ def quick_shapes():
 _FACTORIES = {}
 
 
-def make_function(sh, defaults, log, method=False):
+def make_function(sh, defaults, log, method=False, lead=None):
     """a function of the given shape built by a factory, so that every function of one shape shares one code object
-    (as closures, lambdas in a loop and re-created methods do); default objects are taken from `defaults` by name"""
-    key = (shape_name(sh), method)
+    (as closures, lambdas in a loop and re-created methods do); default objects are taken from `defaults` by name.
+    lead: name of an extra leading positional parameter (a differently shaped function with the same parameter names)"""
+    key = (shape_name(sh), method, lead, POS)
     if key not in _FACTORIES:
-        f0, ns0 = _make_source(sh, method)
+        f0, ns0 = _make_source(sh, method, lead)
         _FACTORIES[key] = ns0['make']
     f = _FACTORIES[key](defaults, log, lambda: None)
     return f, {'f': f}
 
 
-def _make_source(sh, method):
+def _make_source(sh, method, lead=None):
     params = ['self'] if method else []
+    if lead:
+        params.append(lead)
     for i in range(sh['npos']):
         n = POS[i]
         params.append(n + ('=_D[%r]' % n if i >= sh['npos'] - sh['ndef'] else ''))
@@ -103,6 +106,14 @@ class Call:
 
 
 WIT = (1, 1.0, True)            # equal values of different types
+WIT2 = (1, 1.0)                 # ... for every named parameter at once (typed keymaps must tell the bindings apart)
+
+
+def veq(x, y):
+    """equality of two bound values: atoms by the solver, concrete witnesses by value *and type*"""
+    if isinstance(x, Sym) or isinstance(y, Sym):
+        return x == y
+    return type(x) is type(y) and x == y
 NAMEWIT = ('p', 'q', 'a')       # argument values that coincide with keyword / parameter names
 
 
@@ -121,6 +132,8 @@ def gen_call(ctx, sh, defaults, free, tag, wit=None):
         firstx = True
 
     def value(base):
+        if wit == 'typed2':
+            return WIT2[ctx.choice(len(WIT2), tag + 'w2')]
         if wit == 'typed' and _W.first:
             _W.first = False
             c.wit = ctx.choice(len(WIT), tag + 'w')
@@ -216,7 +229,7 @@ def binding_eq(sh, spec, A, B):
     for n in A.named:
         if n in names:
             continue
-        conds.append(A.named[n] == B.named[n])
+        conds.append(veq(A.named[n], B.named[n]))
     if not star:
         la, lb = len(A.extras), len(B.extras)
         if la != lb:
@@ -227,7 +240,7 @@ def binding_eq(sh, spec, A, B):
         for i in range(la):
             if (sh['npos'] + i) in idx:
                 continue
-            conds.append(A.extras[i] == B.extras[i])
+            conds.append(veq(A.extras[i], B.extras[i]))
     if not dstar:
         for n in set(A.xkw) | set(B.xkw):
             if n in names:
@@ -236,7 +249,7 @@ def binding_eq(sh, spec, A, B):
                 continue
             if (n in A.xkw) != (n in B.xkw):
                 return False
-            conds.append(A.xkw[n] == B.xkw[n])
+            conds.append(veq(A.xkw[n], B.xkw[n]))
     return And(*conds)
 
 
@@ -452,7 +465,32 @@ class Keys:
                 raise
             except Exception:
                 pass
-        f, ns = make_function(sh, defaults, log, method)
+        if cfg.get('shifted') and spec:
+            # a differently shaped function with the same ignore specification is keyed first
+            fs_, _ = make_function(sh, dict(defaults), [], False, lead='z')
+            ks_, _gs = self.keyfun(fs_)
+            Ps = min_call(ctx, sh, 'Q')
+            try:
+                ks_(ctx.atom(ArgSort, 'Qz'), *Ps.args, **Ps.kw)
+            except (PathPruned, Inconclusive):
+                raise
+            except Exception:
+                pass
+        bound = bool(cfg.get('bound'))
+        f, ns = make_function(sh, defaults, log, method or bound)
+        if bound:
+            # the cached callable is a bound method; the plain function of the class is keyed first (with the instance explicit)
+            Cls = type('Obj', (_Inst,), {'f': f})
+            inst = Cls()
+            kp, _gp = self.keyfun(f)
+            Pb = min_call(ctx, sh, 'R')
+            try:
+                kp(inst, *Pb.args, **Pb.kw)
+            except (PathPruned, Inconclusive):
+                raise
+            except Exception:
+                pass
+            f = inst.f
         keyf, g = self.keyfun(f)
         if cfg.get('scenario') == 'fname':
             return self.fn_fname(ctx, sh, defaults, keyf)
@@ -462,9 +500,11 @@ class Keys:
         selfA = selfB = ()
         same_inst = True
         if method:
-            o1 = _Inst.of(g if g is not None else keyf, 'f')
+            # the instance may belong to a subclass that overrides the method (the base's cached method is called on it)
+            may_override = 'self' in spec            # only matters where klepto has to recognise the instance
+            o1 = _Inst.of(g if g is not None else keyf, 'f', may_override and ctx.bool('override'))
             same_inst = ctx.bool('sameinst')
-            o2 = o1 if same_inst else _Inst.of(g if g is not None else keyf, 'f')
+            o2 = o1 if same_inst else _Inst.of(g if g is not None else keyf, 'f', may_override and ctx.bool('override'))
             selfA, selfB = (o1,), (o2,)
         shape_class = {'varargs': sh['varargs'], 'kwonly': sh['nkwo'] > 0, 'varkw': sh['varkw'], 'defaults': sh['ndef'] > 0}
         if method:
@@ -610,8 +650,13 @@ class _Inst:
     """instance whose attribute named like the method is the bound decorated method (what klepto looks for to spot 'self')"""
 
     @classmethod
-    def of(cls, g, name):
+    def of(cls, g, name, override=False):
         C = type('Obj', (cls,), {name: g} if callable(g) and hasattr(g, '__get__') else {})
+        if override:
+            def other(self, *a, **k):
+                return None
+            other.__name__ = name
+            C = type('Sub', (C,), {name: other})
         o = C()
         return o
 
@@ -665,7 +710,7 @@ def plan(prop, tier):
         name = 'keys/%s/%s/ignore=%s/%s' % (shape_name(sh), km, kw.get('ignore', ()), kw.get('via', 'cache'))
         if sh['ndef'] or any(sh['kwodef']):
             kw.setdefault('sibling', True)
-        for flag in ('method', 'bare', 'wit', 'scenario'):
+        for flag in ('method', 'bare', 'wit', 'scenario', 'bound', 'shifted'):
             if kw.get(flag):
                 name += '/%s%s' % (flag, '' if kw[flag] is True else '=' + str(kw[flag]))
         if kw.get('pos'):
@@ -696,6 +741,11 @@ def plan(prop, tier):
             # methods: the instance is an argument like any other
             if sh['npos'] <= 2 and (q is False or sh['nkwo'] == 0):
                 add(sh, 'rawsent', method=True)
+                add(sh, 'rawsent', bound=True)          # the cached callable is a bound method
+            # equal values of different types in every parameter: typed / repr-based keymaps must keep the bindings apart
+            if 1 <= sh['npos'] + sh['nkwo'] <= 2 and not sh['varargs'] and not sh['varkw']:
+                for km in ('rawtyped', 'strtyped', 'strflat', 'md5typed'):
+                    add(sh, km, wit='typed2')
         add(quick_shapes()[2], 'raw', canary=True)
     elif prop == 'C11':
         for sh in shapes:
@@ -704,11 +754,15 @@ def plan(prop, tier):
                     if km in ('raw', 'strflat', 'md5') and sh['varargs']:
                         km = 'rawsent'     # flat without sentinel + *args is not information-preserving (C10)
                     add(sh, km, ignore=list(spec), endtoend=(km in ('raw', 'rawsent')))
-                add(sh, 'rawsent', ignore=list(spec), via='keygen')
-                if len(spec) == 1:
+                heavy = q and sh['varargs'] and sh['varkw'] and sh['nkwo']      # the largest trees: base configuration only in the quick tier
+                if not heavy:
+                    add(sh, 'rawsent', ignore=list(spec), via='keygen')
+                if len(spec) == 1 and not heavy:
                     add(sh, 'rawsent', ignore=list(spec), bare=True)
+                if any(isinstance(x, str) and x not in ('*', '**') for x in spec) and not heavy:
+                    add(sh, 'rawsent', ignore=list(spec), shifted=True)
             # methods: 'self' ignored by name, alone and together with names, '*' and '**'
-            if sh['npos'] <= 2 and (q is False or sh['nkwo'] == 0):
+            if sh['npos'] <= 2 and (q is False or (sh['nkwo'] == 0 and not (sh['varargs'] and sh['varkw'] and sh['npos'] > 1))):
                 mspecs = [('self',)] + [('self', POS[i]) for i in range(sh['npos'])]
                 if sh['varargs']:
                     mspecs += [('self', '*'), ('*',)]
